@@ -15,11 +15,49 @@ var errC16 = errors.New("c16: clock failed")
 
 // a reference clock whose measurement succeeds or fails arbitrarily; a successful one reports its id
 type c16clock struct {
-	id int
-	ok bool
+	id    int
+	ok    bool
+	delay time.Duration // native replay: the measurement takes this long (virtual time under testing/synctest)
+}
+
+// Native replay (testing/synctest bubble, virtual time): the schedule of the counterexample becomes
+// completion times: scheduling event e (a select evaluation or a receive of the drain goroutine) happens at
+// (e+1)*c16tick; the deadline that fires at event e expires half a tick earlier, so that it is the only
+// ready case of that select.  Clocks whose result nobody receives complete long after everything else.
+const c16tick = 10 * time.Millisecond
+
+var c16deadline time.Time // zero: no deadline
+
+func c16ctx() (context.Context, context.CancelFunc) {
+	if v.Native() {
+		if at := v.RawInt("sched.fired_at.0", 255); at != 255 {
+			c16deadline = time.Now().Add(time.Duration(at+1)*c16tick - c16tick/2)
+			return context.WithDeadline(context.Background(), c16deadline)
+		}
+	}
+	return context.Background(), func() {}
+}
+
+func c16delay(k int) time.Duration {
+	if v.Native() {
+		return time.Duration(v.RawInt("sched.at."+string(rune('0'+k)), 255)+1) * c16tick
+	}
+	return 0
+}
+
+// the round returned by its deadline: symbolically, the collecting goroutine never waited again after it
+// had taken the deadline case; natively, the (virtual) clock has not passed the deadline
+func c16onTime() bool {
+	if v.Native() {
+		return c16deadline.IsZero() || !time.Now().After(c16deadline)
+	}
+	return v.WaitsAfterDeadline() == 0
 }
 
 func (c *c16clock) MeasureClockOffset(ctx context.Context) (time.Time, time.Duration, error) {
+	if v.Native() {
+		time.Sleep(c.delay) // a slow clock that does not look at the context
+	}
 	if c.ok {
 		return time.Unix(int64(c.id), 0).UTC(), time.Duration(c.id), nil
 	}
@@ -33,7 +71,7 @@ func c16setup(n int) ([]ReferenceClock, []*c16clock, []measurements.Measurement)
 	cs := make([]*c16clock, n)
 	ms := make([]measurements.Measurement, n)
 	for i := 0; i < n; i++ {
-		cs[i] = &c16clock{id: i + 1, ok: v.Bool("clk.ok")}
+		cs[i] = &c16clock{id: i + 1, ok: v.Bool("clk.ok"), delay: c16delay(i)}
 		clks[i] = cs[i]
 		ms[i].Offset = c16sentinel
 	}
@@ -65,9 +103,11 @@ func c16checkResults(n int, cs []*c16clock, ms []measurements.Measurement) (fill
 
 func c16Collect(n int) {
 	clks, cs, ms := c16setup(n)
-	ctx := context.Background()
+	ctx, cancel := c16ctx()
+	defer cancel()
 	var c ReferenceClockClient
 	c.MeasureClockOffsets(ctx, clks, ms)
+	v.Assert(c16onTime(), "C16.deadline.returns-by-the-deadline")
 	filled := c16checkResults(n, cs, ms)
 	nok := 0
 	for i := 0; i < n; i++ {
@@ -88,7 +128,8 @@ func c16Collect(n int) {
 // the count returned by the collector is the number of results stored
 func c16Count(n int) {
 	_, cs, ms := c16setup(n)
-	ctx := context.Background()
+	ctx, cancel := c16ctx()
+	defer cancel()
 	msc := make(chan measurements.Measurement)
 	for i := 0; i < n; i++ {
 		go func(c *c16clock) {
@@ -97,6 +138,7 @@ func c16Count(n int) {
 		}(cs[i])
 	}
 	j := collectMeasurements(ctx, ms, msc)
+	v.Assert(c16onTime(), "C16.deadline.returns-by-the-deadline")
 	filled := c16checkResults(n, cs, ms)
 	v.Assert(j == filled, "C16.count.returned-count-is-number-stored")
 	v.Assert(v.BlockedSenders() == 0, "C16.leak.every-send-is-received")
